@@ -296,8 +296,15 @@ def gen_inclass(rng, knobs=None):
                         break
                     hid = new_handler(local_types)
                     spec["handlers"][hid].update({"path": templ, "methods": ms})
-                    if "{" in templ and rng.random() < 0.5:
-                        spec["handlers"][hid]["raw_params"] = True
+                    if "{" in templ:
+                        r = rng.random()
+                        if r < 0.35:
+                            spec["handlers"][hid]["raw_params"] = True
+                        elif r < 0.65:
+                            import re as _re
+                            names_ = _re.findall(r"\{\*?(\w+)\}", templ)
+                            k_ = rng.randint(1, len(names_))
+                            spec["handlers"][hid]["path_params"] = sorted(rng.sample(names_, k_))
                     body.append(["route", hid])
                     nh -= 1
         for _ in range(budget["m"]):
